@@ -254,6 +254,37 @@ def r5(ctx, prog, eng):
         raise AnalysisBroken('expected >=4 task invocation sites, found %d' % n)
 
 
+def parity_on_edge(f, cond, k, depth=0):
+    """which parity of the tested id holds on successor edge k (0 = true edge) of condition `cond`: 'odd' / 'even' / None.
+    Understands id & 1, id % 2, comparisons of those with 0/1, negation, and a local bool with a single such definition."""
+    from tbxlint import rd
+    cs = f.s(f.strip_casts(cond))
+    if cs is None or depth > 3:
+        return None
+    true_is = None
+    if cs['k'] == 'UnaryOperator' and cs.get('op') == '!':
+        r = parity_on_edge(f, cs['ch'][0], 0, depth + 1)
+        true_is = {'odd': 'even', 'even': 'odd'}.get(r)
+    elif cs['k'] == 'BinaryOperator' and cs.get('op') in ('&', '%'):
+        c = f.s(f.strip_casts(cs['ch'][1])).get('cv')
+        if (cs['op'] == '&' and c == 1) or (cs['op'] == '%' and c == 2):
+            true_is = 'odd'
+    elif cs['k'] == 'BinaryOperator' and cs.get('op') in ('==', '!='):
+        for a, b in ((cs['ch'][0], cs['ch'][1]), (cs['ch'][1], cs['ch'][0])):
+            inner = parity_on_edge(f, a, 0, depth + 1)
+            c = f.s(f.strip_casts(b)).get('cv') if f.s(f.strip_casts(b)) else None
+            if inner and c in (0, 1):
+                eq_one = (cs['op'] == '==') == (c == 1)      # the condition is true exactly when the inner test is non-zero
+                true_is = inner if eq_one else {'odd': 'even', 'even': 'odd'}[inner]
+    elif cs['k'] == 'DeclRefExpr' and cs.get('dk') == 'Var':
+        defs = rd.local_defs(f, cs['d'])
+        if len(defs) == 1 and defs[0]['kind'] == 'init' and defs[0]['rhs'] is not None:
+            true_is = parity_on_edge(f, defs[0]['rhs'], 0, depth + 1)
+    if true_is is None:
+        return None
+    return true_is if k == 0 else {'odd': 'even', 'even': 'odd'}[true_is]
+
+
 def r6(ctx, prog, eng):
     ctx.rule('C01.R6', 'A6+A12: FIFO by construction (member queues: append at back, take from front, wholesale swap/move, erase by id only '
                        'in cancel); id spaces of different parity; cancel searches the running batch first, then the queue of that parity', floor=8)
@@ -316,9 +347,9 @@ def r6(ctx, prog, eng):
             p = q.pt(c, byq[qn])
             good = False
             for cond, k, b in c.cfg.controlling_branches(p):
-                cs = c.s(c.strip_casts(cond))
-                if cs and cs['k'] == 'BinaryOperator' and cs.get('op') == '&' and c.s(c.strip_casts(cs['ch'][1])).get('cv') == 1:
-                    good = (k == 0) == want_odd
+                par = parity_on_edge(c, cond, k)
+                if par is not None:
+                    good = (par == 'odd') == want_odd
             ctx.ob('C01.R6', '%s|parity-%s' % (c.name, qn), good, '%s is searched on the %s branch of (id & 1)' % (qn, 'odd' if want_odd else 'even'), where=c.loc(byq[qn]['i']))
         ctx.ob('C01.R6', '%s|locked-erase' % c.name, LOCK in (res.get(q.pt(c, byq['run_in_loop_func_queue_'])) or ()), 'the cross-thread queue is searched under lock_', where=c.loc(byq['run_in_loop_func_queue_']['i']))
 
